@@ -576,7 +576,10 @@ func (p *Parser) parseGroupBy(selStmt *SelectStmt, ctx *CheckCtx) (*GroupByStmt,
 	p.exprLev--
 	if len(fields) > 0 {
 		for _, f := range fields {
-			if err := f.Expr.Check(ctx); err != nil {
+			ctx.current = f.Expr
+			err := f.Expr.Check(ctx)
+			ctx.current = nil
+			if err != nil {
 				return nil, err
 			}
 		}
